@@ -252,6 +252,10 @@ fn plan_c08(o: &Opts) -> Vec<GroupSpec> {
          crate::count_excluded("KF-2");
          continue;
       }
+      if gen::kf20_shape(&expanded) && GenCfg::core().excluded("KF-20") {
+         crate::count_excluded("KF-20");
+         continue;
+      }
       let base = format!("C08-s{}-{}", o.seed, i - 1);
       let mut m0 = meta(&base, "macros", Kind::Ascent, true);
       let twice = prog.rules.iter().any(|ru| ru.body.iter().filter(|b| matches!(b, vcore::ast::BodyItem::MacroCall { .. })).count() >= 2);
